@@ -21,9 +21,17 @@
    * hence after any history a LOOKUP — whether it hits the cache, hits a negative entry or misses — reports
      exactly the backend's existence, type, size, mode and fileid (`lookup_after_any_history`): caching is
      invisible in LOOKUP replies for every TTL, size and negative-cache setting.
-  PARTIAL: the directory-listing cache (DirCache) is not covered by `CInv` — that a cached listing equals the
-  backend's listing after every history is checked by the cross-configuration oracle (same history under all 8
-  cache settings, plus mid-history expiry and a 3-entry cache) and by the correspondence, not proved. The
+   * the directory-listing cache (`DcSup`, Absnfs/ServerDcSup.lean): after every history every cached listing is
+     in strictly increasing name order and names every object the backend has directly below the listing's key.
+     Hence the node list READDIR / READDIRPLUS work from — answered from the cache or from the backend — *is* the
+     backend's directory in name order, restricted to the names the listing loop accepts
+     (`listing_is_the_backend_after_any_history`; as corollaries `listing_misses_nothing`, `listing_invents_nothing`,
+     `dircache_never_hides_a_name`): the directory cache is invisible for every TTL, size and max-dir-size setting.
+     "Every cached listing equals the backend's listing of its key" is false of code and model alike (DESIGN §11.7);
+     the superset is the invariant that holds, the one a forgotten dirCache.Invalidate breaks, and — because every
+     cached name is looked up again — enough for equality of the replies. It needs the backend model to store no
+     path twice (`Fs.WF` now says so, and every backend operation keeps it).
+  The
   backend is the `Fs` model (errors only where the model has them: a backend that fails Chown after a
   successful Chmod would leave SetAttr's early return without an invalidation; outside the model).
 -/
@@ -33,6 +41,8 @@ import Absnfs.ServerFailed
 import Absnfs.FsReach
 import Absnfs.ServerLookup
 import Absnfs.ServerListing
+import Absnfs.ServerDcSup
+import Absnfs.ServerAttrs3
 import Props.C21
 import Gen.Facts
 open Absnfs Absnfs.Server
@@ -247,6 +257,62 @@ theorem cold_listing_is_the_backend (s : St) (now : Nat) (d : Node) (nodes : Lis
       ((((Fs.sortByName (Fs.children s.fs (fsPath d.path))).map (·.1)).filter (listable d.path)).map (joinName d.path)) :=
   readDir_lists_backend s now d nodes hI hcold hd e hwalk hk h
 
+/-! ### the directory-listing cache, for every request and every history
+
+`DcSup s`: every listing in the directory cache names every object the backend has directly below the listing's
+key. It holds for a new server (no entries) and every request keeps it: READDIR stores what the backend lists under
+the key it read; CREATE / MKDIR / SYMLINK add one name and drop the listing of its directory; RENAME adds names only
+at or below the destination and drops every listing there and the destination parent's; every other procedure
+creates nothing. -/
+
+theorem new_server_dcSup (s : St) (hdc : ∀ c, s.dc = some c → c.entries = [] ∧ 0 < c.cap) : DcSup s :=
+  dcSup_of_empty fun c hc => (hdc c hc).1
+
+theorem handle_keeps_dcSup (s : St) (c : Ctx) (prog vers proc : Nat) (args : Bytes) (h : CInv s) (hS : DcSup s) :
+    DcSup (handle s c prog vers proc args).1 := handle_dcSup s c prog vers proc args h hS
+
+theorem history_keeps_dcSup (s : St) (rs : List Req) (h : CInv s) (hS : DcSup s) : DcSup (runReqs s rs) :=
+  runReqs_dcSup s rs h hS
+
+/-- after any history, whatever the cache configuration: if the directory cache holds a listing for a key, then
+    every object the backend currently has directly below that key is named in it -/
+theorem dircache_never_hides_a_name (s0 : St) (rs : List Req) (h0 : CInv s0) (hS0 : DcSup s0)
+    (c : Lru.Cache (List Bytes)) (hc : (runReqs s0 rs).dc = some c) (e : Lru.Entry (List Bytes)) (he : e ∈ c.entries)
+    (names : List Bytes) (hv : e.val = some names) (x : Bytes)
+    (hx : existsAt (runReqs s0 rs).fs (fsPath e.key ++ [x]) = true) : x ∈ names :=
+  ((runReqs_dcSup s0 rs h0 hS0 c hc e he).2 names hv).2 x hx
+
+/-- C02, cache transparency of directory listings (completeness): after any history, whether the listing comes
+    from the directory cache or from the backend, the nodes READDIR / READDIRPLUS work from include every object that
+    exists directly below the directory and whose name the listing loop accepts — a mutation the server completed
+    (a CREATE, MKDIR, SYMLINK, or a RENAME into the directory) is never hidden by a cached listing -/
+theorem listing_misses_nothing (s0 : St) (rs : List Req) (h0 : CInv s0) (hS0 : DcSup s0) (now : Nat) (d : Node)
+    (nodes : List Node) (hd : CleanPath d.path) (h : (readDir (runReqs s0 rs) now d).2 = .ok nodes) (x : Bytes)
+    (hl : listable d.path x = true) (i : Fs.Info) (hx : Fs.lstat (runReqs s0 rs).fs (fsPath d.path ++ [x]) = .ok i) :
+    joinName d.path x ∈ nodes.map (·.path) :=
+  readDir_complete _ now d nodes (runReqs_cinv s0 rs h0) (runReqs_dcSup s0 rs h0 hS0) hd h x hl (existsAt_of_lstat hx)
+
+/-- C02, cache transparency of directory listings, full statement: after any history of requests on a server whose
+    directory cache started empty — whatever its TTL, capacity and max-dir-size, whether the listing is answered
+    from the cache or read from the backend — the node list of a READDIR / READDIRPLUS is the backend's directory in
+    name order, restricted to the names the listing loop accepts. Same right-hand side as `cold_listing_is_the_backend`,
+    without the hypothesis that the cache is cold. -/
+theorem listing_is_the_backend_after_any_history (s0 : St) (rs : List Req) (h0 : CInv s0) (hS0 : DcSup s0) (now : Nat)
+    (d : Node) (nodes : List Node) (hd : CleanPath d.path) (h : (readDir (runReqs s0 rs) now d).2 = .ok nodes) :
+    nodes.map (·.path) =
+      ((((Fs.sortByName (Fs.children (runReqs s0 rs).fs (fsPath d.path))).map (·.1)).filter (listable d.path)).map
+        (joinName d.path)) :=
+  readDir_is_backend _ now d nodes (runReqs_cinv s0 rs h0) (runReqs_dcSup s0 rs h0 hS0) hd h
+
+/-- … (soundness) and every node is a name the listing loop accepts, directly below the directory, carrying what the
+    backend's Lstat says about it at that moment — a REMOVE, RMDIR or RENAME away is never hidden either -/
+theorem listing_invents_nothing (s0 : St) (rs : List Req) (h0 : CInv s0) (now : Nat) (d : Node) (nodes : List Node)
+    (h : (readDir (runReqs s0 rs) now d).2 = .ok nodes) (nd : Node) (hnd : nd ∈ nodes) :
+    MatchesLstat (runReqs s0 rs).fs nd.path nd.attrs ∧ ∃ x, listable d.path x = true ∧ nd.path = joinName d.path x := by
+  refine ⟨readDir_matches _ now d (runReqs_cinv s0 rs h0).coh nodes h nd hnd, ?_⟩
+  obtain ⟨x, _, hl, hp⟩ := readDir_paths _ now d nodes h nd hnd
+  exact ⟨x, hl, hp⟩
+
 /-- non-vacuity: the premises of `new_server_cinv` are met by a concrete server state -/
 def demoState : St :=
   { fs := Fs.empty 1000, hs := Handles.init 0, nodes := [],
@@ -256,5 +322,53 @@ def demoState : St :=
              defaultMaxHandles := 100000, evictDivisor := 10, dcMaxDirSize := 10000, maxRecord := 1048576, writeVerf := [] } }
 example : CInv demoState := new_server_cinv demoState rfl (by decide) 0 rfl (by decide) (Fs.wf_empty 1000)
   (by intro c hc; simp [demoState] at hc)
+
+/-- … and of `new_server_dcSup`, by a server state with a directory cache -/
+def demoStateDc : St :=
+  { demoState with dc := some { entries := [], cap := 4, ttl := 5, negTtl := 0, enableNeg := false, hitAtEq := true } }
+example : CInv demoStateDc ∧ DcSup demoStateDc :=
+  ⟨new_server_cinv demoStateDc rfl (by decide) 0 rfl (by decide) (Fs.wf_empty 1000)
+     (by intro c hc; simp only [demoStateDc, Option.some.injEq] at hc; rw [← hc]; exact ⟨rfl, by decide⟩),
+   new_server_dcSup demoStateDc (by intro c hc; simp only [demoStateDc, Option.some.injEq] at hc; rw [← hc]; exact ⟨rfl, by decide⟩)⟩
+
+/-- the invariant is not trivially true: a listing that lacks an existing child violates it (this is the state a
+    forgotten `dirCache.Invalidate` produces) -/
+example : ¬ DcSupD ((Fs.mkdir (Fs.empty 1000) [[97]] 0o755).toOption.getD (Fs.empty 1000))
+    (some { entries := [{ key := [47], val := some [], expireAt := 10 }], cap := 4, ttl := 5, negTtl := 0,
+            enableNeg := false, hitAtEq := true }) := by
+  intro h
+  have := ((h _ rfl _ (List.mem_singleton.mpr rfl)).2 [] rfl).2 [97] (by decide)
+  simp at this
+
+/-- … while the same cache content is fine once the listing names the child -/
+example : DcSupD ((Fs.mkdir (Fs.empty 1000) [[97]] 0o755).toOption.getD (Fs.empty 1000))
+    (some { entries := [{ key := [47], val := some [[97]], expireAt := 10 }], cap := 4, ttl := 5, negTtl := 0,
+            enableNeg := false, hitAtEq := true }) := by
+  intro c hc e he
+  simp only [Option.some.injEq] at hc
+  rw [← hc] at he
+  simp only [List.mem_singleton] at he
+  subst he
+  refine ⟨.root, ?_⟩
+  intro names hv
+  simp only [Option.some.injEq] at hv
+  subst hv
+  refine ⟨by simp [Fs.Increasing], ?_⟩
+  intro x hx
+  have hroot : fsPath [47] = [] := fsPath_root
+  rw [hroot] at hx
+  simp only [List.nil_append] at hx
+  have : (Fs.mkdir (Fs.empty 1000) [[97]] 0o755).toOption.getD (Fs.empty 1000) =
+      { ents := [([[97]], { kind := .dir, perm := 0o755, uid := 0, gid := 0, data := [], ino := 2 }),
+                 ([], { kind := .dir, perm := 0o755, uid := 0, gid := 0, data := [], ino := 1 })], nextIno := 3, maxSize := 1000 } := by
+    rfl
+  rw [this] at hx
+  unfold existsAt Fs.get at hx
+  simp only [List.find?_cons, List.find?_nil] at hx
+  cases hb : (([[97]] : Fs.Path) == [x])
+  · rw [hb] at hx; simp at hx
+  · have := eq_of_beq hb
+    simp only [List.cons.injEq, and_true] at this
+    simp [← this]
 
 end Props.C02
